@@ -639,10 +639,30 @@ func c17Client(c *ev.Ctx) {
 					return fmt.Sprint(q, m, a), e
 				case 'K':
 					q, nf, e := f.Walk([]string{"x", "y", "z"})
-					if e == nil {
-						nf.Close() // the fid returns to the pool: the next walk sends the same request
+					if e != nil {
+						return "", e
 					}
-					return fmt.Sprint(q), e
+					nf.Close()
+					// the new fid number is the client's choice (and a finalizer may
+					// return another one to the pool at any time): judge the result
+					// against the reply derived from the request actually sent
+					rs := fs.Reqs()
+					for i := len(rs) - 1; i >= 0; i-- {
+						if rs[i].Err == nil && rs[i].Msg.Type == wire.Twalk {
+							_, vals := fakesrv.Derived(rs[i].Msg, 1<<16)
+							want := vals[0].([]wire.QID)
+							if len(want) != len(q) {
+								return "", fmt.Errorf("walk returned %d qids, own reply has %d", len(q), len(want))
+							}
+							for k := range q {
+								if wQID(q[k]) != want[k] {
+									return "", fmt.Errorf("walk returned qids that are not in its own reply")
+								}
+							}
+							break
+						}
+					}
+					return "own-reply", nil
 				case 'L':
 					t, e := f.Readlink()
 					return t, e
